@@ -4,7 +4,7 @@
    asking the harness over the pipe. *)
 From Coq Require Import List NArith ZArith Bool Ascii String.
 From Authlib Require Import Base.Bytes Base.Base64 Base.BigEndian Base.PyVal.
-From Authlib Require Import Model.JWK.
+From Authlib Require Import Model.JWK Model.Claims Spec.ClaimsSpec.
 Import ListNotations.
 Open Scope string_scope.
 
@@ -56,10 +56,48 @@ Definition dispatch_jwk (fn : string) (a : pv) : option pv :=
     Some (pv_of_kres PStr (thumbprint_input (arg_s "kty" a) (arg_strs "required" a) (dict_of_pv (arg "tokens" a))))
   else None.
 
+Definition pv_of_verr (e : option verr) : pv :=
+  match e with
+  | None => PNone
+  | Some (EMissing k) => PList [PStr "missing_claim"; PStr k]
+  | Some (EInvalid k) => PList [PStr "invalid_claim"; PStr k]
+  | Some EExpired => PList [PStr "expired_token"; PStr "exp"]
+  | Some (EInvalidToken w) => PList [PStr "invalid_token"; PStr w]
+  end.
+
+Definition o_vfun (name : string) (claims : dictT) (v : pv) : bool :=
+  pv_bool (oracle "validate" (PList [PStr name; PDict claims; v])).
+Definition o_half_hash (s alg : string) : option string :=
+  match oracle "half_hash" (PList [PStr s; PStr alg]) with PStr h => Some h | _ => None end.
+
+Definition dispatch_claims (fn : string) (a : pv) : option pv :=
+  let opts := dict_of_pv (arg "options" a) in
+  let claims := dict_of_pv (arg "claims" a) in
+  let hdr := dict_of_pv (arg "header" a) in
+  let params := dict_of_pv (arg "params" a) in
+  let now := arg_z "now" a in
+  let lw := arg_z "leeway" a in
+  if String.eqb fn "jwt_validate" then Some (pv_of_verr (jwt_validate o_vfun opts claims now lw))
+  else if String.eqb fn "idtoken_validate" then
+    let kind := arg_s "kind" a in
+    let k := if String.eqb kind "code" then KCode else if String.eqb kind "implicit" then KImplicit else KHybrid in
+    Some (pv_of_verr (idtoken_validate o_vfun o_half_hash k opts hdr params claims now lw))
+  else if String.eqb fn "at_validate" then Some (pv_of_verr (at_validate o_vfun opts hdr claims now lw))
+  else if String.eqb fn "jwt_spec" then Some (PBool (jwt_claims_ok o_vfun JWT_REGISTERED opts claims now lw))
+  else if String.eqb fn "idtoken_spec" then
+    let kind := arg_s "kind" a in
+    let k := if String.eqb kind "code" then FCode else if String.eqb kind "implicit" then FImplicit else FHybrid in
+    Some (PBool (idtoken_ok o_vfun o_half_hash k opts hdr params claims now lw))
+  else if String.eqb fn "at_spec" then Some (PBool (at_claims_ok o_vfun opts hdr claims now lw))
+  else None.
+
 Definition dispatch (fn : string) (a : pv) : pv :=
   if String.eqb fn "oracle_echo" then oracle "echo" a else
   match dispatch_jwk fn a with
   | Some r => r
+  | None =>
+  match dispatch_claims fn a with
+  | Some r => r
   | None => err ("unknown function " ++ fn)
-  end.
+  end end.
 End D.
